@@ -29,6 +29,7 @@ func init() {
 	wrap("C39", c39RawCompareRule)
 	wrap("C24", c24CommitGate)
 	wrap("C37", c37PkBeforeIndexes)
+	wrap("C42", c42LockHandedOutOnlyIfHeld)
 	Registry["C24"].Patterns = append(Registry["C24"].Patterns, "./libraries/doltcore/env/actions")
 }
 
@@ -274,4 +275,21 @@ func c37PkBeforeIndexes(k *eng.Check) {
 	ok, pos := okIn(top, 3)
 	k.Require("pk-ordinals-before-indexes", eng.Name(top), "secondary indexes are added to a deserialized schema only after its primary-key ordinals were applied", ok, pos,
 		"an index is created before SetPkOrdinals: it captures the primary-key columns in declaration order and is not updated afterwards")
+}
+
+// c42LockHandedOutOnlyIfHeld: the helper that takes the local blobstore's manifest lock returns a lock (and no error)
+// only on the edge where the acquisition returned nil: a timeout or any other failure of Lock must not be turned
+// into "proceed without the lock", because the version comparison and the write of CheckAndPutManifest are only
+// atomic under it.
+func c42LockHandedOutOnlyIfHeld(k *eng.Check) {
+	fn := k.Fn("store/blobstore.fLock")
+	if fn == nil {
+		return
+	}
+	acquire := eng.Static("(*github.com/dolthub/fslock.Lock).Lock", "(*github.com/dolthub/fslock.Lock).LockWithTimeout", "(*github.com/dolthub/fslock.Lock).TryLock")
+	if len(eng.Calls(fn, acquire, false)) < 1 {
+		k.Unknown("lock-handed-out-only-if-held", eng.Name(fn), "call that acquires the file lock", "not found")
+		return
+	}
+	k.OnlyAfter("lock-handed-out-only-if-held", fn, "fLock succeeds only on the edge where the lock acquisition returned nil", eng.SuccessExits(fn), 1, k.OkCalls(fn, "acquire", acquire))
 }
